@@ -125,6 +125,8 @@ where
                 .scope_(|builder| builder.do_(ls))
                 .update_best_individual()
                 .do_(replacement::MuPlusLambda::new(1))
+                // Drop the perturbed solution the local search result was compared against.
+                .do_(replacement::Generational::new(1))
                 .do_(Logger::new())
         })
         .build_component()
